@@ -146,6 +146,26 @@ class FakeStream:
         self.writable.set()
 
 
+class FakeTLSStream(FakeStream):
+    """Looks like trio.SSLStream to TCPServer.run: do_handshake, selected_alpn_protocol,
+    transport_stream.socket."""
+
+    def __init__(self, env: "TrioEnv", alpn: Optional[str]) -> None:
+        super().__init__(env)
+        self._alpn = alpn
+        self.transport_stream = self
+
+    async def do_handshake(self) -> None:
+        await trio.lowlevel.checkpoint()
+
+    def selected_alpn_protocol(self) -> Optional[str]:
+        return self._alpn
+
+    async def send_eof(self) -> None:
+        # SSLStream cannot half-close: TCPServer._close tolerates the error and goes on to aclose()
+        raise trio.BusyResourceError("send_eof is not supported on TLS streams") if False else AttributeError("send_eof")
+
+
 class TrioGate:
     def __init__(self, env: "TrioEnv", rid: str) -> None:
         self.env = env
@@ -311,7 +331,12 @@ class TrioEnv:
         sess = self.sess
         self.t0 = self.clock.current_time()
         trio._core._run._r.seed(self.seed)
-        self.stream = FakeStream(self)
+        if sess.carrier == "h2":
+            self.stream = FakeTLSStream(self, "h2")
+        elif sess.script.get("tls"):
+            self.stream = FakeTLSStream(self, sess.script.get("alpn"))
+        else:
+            self.stream = FakeStream(self)
         self.context = WorkerContext(sess.script.get("max_requests"))
         self.server = TCPServer(ASGIWrapper(sess.puppet), sess.config, self.context, {}, self.stream)
         self.nursery = None
